@@ -112,6 +112,76 @@ theorem xenMapScan_runs (cfg : Cfg) (entsz : Nat) (addOk : Nat → Bool) (n k : 
       · exact ih (k + 1) pol (pos + entsz) ⟨st.cur, st.left - entsz⟩ orc
       · simpa [scanLeft] using fcachePut_runs st.cur L
 
+/-! ### verify_magic_number (sadump.c) -/
+
+theorem magicLoop_runs (cfg : Cfg) (fidx : Nat) (cont : Nat → Bool) (fuel k : Nat) (pol : Policy) (pos : Nat)
+    (f : Fce) (left : Nat) (orc : List Ext) (L : List Res) :
+    Runs (magicLoop cfg fidx cont fuel k pol pos f left orc).evs (pinOf f :: L)
+      (scanLeft [pinOf f] (magicLoop cfg fidx cont fuel k pol pos f left orc).res ++ L) := by
+  induction fuel generalizing k pol pos f left orc with
+  | zero => simpa [magicLoop, scanLeft, stuckOut] using Runs.nil (pinOf f :: L)
+  | succ n ih =>
+    have hput : Runs [Ev.put f.c f.key] (pinOf f :: L) L := Runs.put (List.Perm.refl _)
+    unfold magicLoop
+    split
+    · have hg := fcacheGet_runs cfg pol fidx (pos + 4) orc L
+      rcases hout : fcacheGet cfg pol fidx (pos + 4) orc with ⟨res, e, o⟩
+      rw [hout] at hg
+      cases res with
+      | stuck => simpa [scanLeft, stuckOut] using Runs.nil (pinOf f :: L)
+      | err s =>
+        simp only [gainFceP, List.nil_append] at hg
+        simpa [scanLeft] using Runs.append hput hg
+      | ok fp =>
+        obtain ⟨f', pol'⟩ := fp
+        simp only [gainFceP, List.cons_append, List.nil_append] at hg
+        have hput' : Runs [Ev.put f'.c f'.key] (pinOf f' :: L) L := Runs.put (List.Perm.refl _)
+        simp only
+        split
+        · simpa [scanLeft] using Runs.append (Runs.append hput hg) hput'
+        · split
+          · have hrec := ih (k + 1) pol' (pos + 4) f' f'.len o
+            rcases hout2 : magicLoop cfg fidx cont n (k + 1) pol' (pos + 4) f' f'.len o with ⟨res2, e2, o2⟩
+            rw [hout2] at hrec
+            simp only at hrec
+            cases res2 with
+            | stuck => simpa [scanLeft, stuckOut] using Runs.nil (pinOf f :: L)
+            | err s =>
+              simp only [scanLeft, List.nil_append] at hrec ⊢
+              exact Runs.append (Runs.append hput hg) hrec
+            | ok p =>
+              simp only [scanLeft, List.nil_append] at hrec ⊢
+              exact Runs.append (Runs.append hput hg) hrec
+          · simpa [scanLeft] using Runs.append (Runs.append hput hg) hput'
+    · split
+      · exact ih (k + 1) pol (pos + 4) f (left - 4) orc
+      · simpa [scanLeft] using hput
+
+theorem verifyMagic_runs (cfg : Cfg) (fidx : Nat) (cont : Nat → Bool) (fuel : Nat) (pol : Policy) (pos : Nat)
+    (orc : List Ext) (L : List Res) :
+    Runs (verifyMagic cfg fidx cont fuel pol pos orc).evs L L := by
+  unfold verifyMagic
+  have hg := fcacheGet_runs cfg pol fidx pos orc L
+  rcases hout : fcacheGet cfg pol fidx pos orc with ⟨res, e, o⟩
+  rw [hout] at hg
+  cases res with
+  | stuck => exact Runs.nil L
+  | err s => simpa [gainFceP] using hg
+  | ok fp =>
+    obtain ⟨f, pol'⟩ := fp
+    simp only [gainFceP, List.cons_append, List.nil_append] at hg
+    simp only
+    split
+    · exact Runs.append hg (Runs.put (List.Perm.refl _))
+    · have hl := magicLoop_runs cfg fidx cont fuel 0 pol' pos f f.len o L
+      rcases hout2 : magicLoop cfg fidx cont fuel 0 pol' pos f f.len o with ⟨res2, e2, o2⟩
+      rw [hout2] at hl
+      simp only at hl
+      cases res2 with
+      | stuck => exact Runs.nil L
+      | err s => simp only [scanLeft, List.nil_append] at hl; exact Runs.append hg hl
+      | ok p => simp only [scanLeft, List.nil_append] at hl; exact Runs.append hg hl
+
 /-! ### the read cache of a translation context -/
 
 theorem lentRes_pageOf (cfg : Cfg) (as addr : Nat) :
